@@ -35,23 +35,25 @@ def obligations(tier):
                               "code_999", "malformed_returned", "dropped_before_reply", "dropped_in_continuation", "dropped_by_timeout",
                               "dropped_malformed"]),
         Obl("smtp_dialogue", "smtp.c",
-            progs=[Prog("qmail-remote.c", nomain=True, cut=["blast", "outhost"])],
+            progs=[Prog("qmail-remote.c", nomain=True, cut=["blast", "outhost", "dropped"])],
             repo=STRALLOC, lib=["ideal_substdio.c", "arena_stralloc.c"],
             defines={"ARENA_CAP": 32, "ARENA_SLOTS": 1},
             sysrename=["_exit"],
             grid=[{"NR": n} for n in nrs],
             unwind_default=18,
-            unwind=lambda p: {"substdio_put": 40, "substdio_get": 2, "smtpcode~for (;;)": 3, "smtpcode~while (ch": 5,
-                              "smtp": p["NR"] + 1, "vf__exit": p["NR"] + 1, "vmain": p["NR"] + 6, "server_command": p["NR"] + 1},
+            unwind=lambda p: {"substdio_put": 40, "substdio_get": 2, "smtpcode~for (;;)": 3, "smtpcode~while (ch": 3,
+                              "smtp": p["NR"] + 1, "check_rcpt_reports": p["NR"] + 1, "ref_walk": p["NR"] + 1,
+                              "vmain": p["NR"] + 6, "server_command": p["NR"] + 1},
             backend="cadical", timeout=1500,
             functions=["qmail-remote.c:smtp", "qmail-remote.c:smtpcode", "qmail-remote.c:get", "qmail-remote.c:saferead",
-                       "qmail-remote.c:quit", "qmail-remote.c:dropped", "qmail-remote.c:outsmtptext", "qmail-remote.c:out",
+                       "qmail-remote.c:quit", "qmail-remote.c:outsmtptext", "qmail-remote.c:out",
                        "qmail-remote.c:zero", "qmail-remote.c:zerodie"],
             cuts=["blast -> contract stub: message and final dot sent, flagcritical=1 (proved by C06 remote_blast), or a write failure "
-                  "before / at the dot calling the real dropped()",
+                  "before / at the dot calling dropped()",
+                  "dropped -> observing stub (when it is called, flagcritical, reports so far); its own report: obligation dropped_quit",
                   "outhost -> prints a fixed marker (formats the peer IP address; no verdict depends on it)"],
-            stubs=["timeoutread: scripted server (per phase symbolic code 000-999, optional continuation line, LF/CRLF, one symbolic "
-                   "text byte, one disconnect at any byte offset of any phase, EOF or error)",
+            stubs=["timeoutread: scripted server (per phase symbolic code 000-999, optional continuation line, one symbolic "
+                   "text byte (CR => CRLF line end), one disconnect at any byte offset of any phase, EOF or error)",
                    "substdio: ideal streams; reads go through the real saferead(); the server sees a command when smtpto is flushed",
                    "stralloc_ready/readyplus: arena; _exit: evaluates the oracle, ends the path"],
             assumes=["replies follow the template (well-formed, <= 2 lines, 1 text byte); writes of commands do not fail (write failure "
@@ -60,13 +62,32 @@ def obligations(tier):
                      "failing write of a command or of QUIT", "DNS/MX selection, connect, tcpto"],
             claim="for every script: recipient i reported r/h/s by the class of the reply to its RCPT, in argument order; exactly one "
                   "message report: K iff some r and DATA<400 and final<400, D/Z by class at MAIL/DATA/final, Z for greeting!=220, "
-                  "HELO!=250 and any disconnect, 'Possible duplicate' iff lost after the dot; NUL in server text adds no record; "
-                  "flushed; exit 0",
-            expect_witnesses=lambda p: ["delivered", "delivered_multiline_nul_text", "no_recipient_accepted", "refused_after_dot_5xx",
+                  "HELO!=250; any disconnect calls dropped() at a record boundary with flagcritical set iff the dot was sent; "
+                  "NUL in server text adds no record; flushed; exit 0",
+            expect_witnesses=lambda p: ["delivered", "delivered_multiline_nul_text", "delivered_crlf", "no_recipient_accepted", "refused_after_dot_5xx",
                                         "deferred_after_dot_4xx", "data_5xx", "mail_5xx", "bad_greeting", "bad_helo",
                                         "lost_inside_final_reply", "lost_while_sending_dot", "lost_while_sending_message",
                                         "lost_before_greeting", "lost_at_last_rcpt", "timeout_at_data"]
             + (["delivered_h_then_r", "delivered_r_then_s"] if p["NR"] >= 2 else [])),
+        Obl("dropped_quit", "dropped.c",
+            progs=[Prog("qmail-remote.c", nomain=True)],
+            repo=["ip.c", "fmt_ulong.c", "fmt_str.c"], lib=["ideal_substdio.c"],
+            sysrename=["_exit"],
+            grid=[{"MODE": 0}, {"MODE": 1}],
+            unwind_default=8,
+            unwind={"substdio_put": 40, "vf__exit": 113, "fmt_ulong": 4, "fmt_str": 3},
+            timeout=600,
+            functions=["qmail-remote.c:dropped", "qmail-remote.c:quit", "qmail-remote.c:outhost", "qmail-remote.c:outsmtptext",
+                       "qmail-remote.c:out", "qmail-remote.c:zero", "qmail-remote.c:zerodie", "ip.c:ip_fmt", "fmt_ulong.c", "fmt_str.c"],
+            stubs=["substdio: ideal streams; a failing write of QUIT is modelled as safewrite() does it: dropped() is called",
+                   "_exit: evaluates the oracle, ends the path"],
+            assumes=["flagcritical in {0,1}; any peer IPv4 address; captured server text <= 6 bytes, every byte value"],
+            outside=["server text longer than 6 bytes"],
+            claim="dropped() appends exactly one report: Z, 'Possible duplicate' iff flagcritical, no NUL inside, flushed, exit 0; "
+                  "quit(letter...) appends exactly one report starting with that letter whatever the captured server text holds "
+                  "(NUL -> '?'), or one Z report if the write of QUIT fails",
+            expect_witnesses=lambda p: ["dropped_critical", "dropped_not_critical"] if p["MODE"] == 0
+            else ["quit_write_failed", "quit_K_text_with_nul", "quit_D_no_text"]),
         Obl("rspawn_report", "report.c",
             progs=[Prog("qmail-rspawn.c")],
             lib=["ideal_substdio.c"],
